@@ -1063,6 +1063,7 @@ void llbuild::basic::spawnProcess(
     assert(readfds[0].fd == outputPipeParentEnd.unsafeDescriptor());
     assert(readfds[1].fd == controlPipeParentEnd.unsafeDescriptor());
 
+    bool pollFailed = false;
     while (poll(readfds, nfds, -1) == -1) {
         int err = errno;
 
@@ -1071,8 +1072,21 @@ void llbuild::basic::spawnProcess(
         } else {
           delegate.processHadError(ctx, handle,
             Twine("failed to poll (") + strerror(err) + ")"); 
-          return;
+          pollFailed = true;
+          break;
         }
+    }
+
+    if (pollFailed) {
+      // We can no longer multiplex the output and control channels. Fall back
+      // to draining the output with blocking reads (the lane can no longer be
+      // released), so that the process is still reaped, removed from the
+      // process group and the completion function is still called.
+      if (readfds[0].events != 0) {
+        captureExecutedProcessOutput(delegate, outputPipeParentEnd, handle,
+                                     ctx);
+      }
+      break;
     }
 
     for (int i = 0; i < nfds; i++) {
